@@ -1,8 +1,9 @@
 (* Extraction of the C15 dispatcher LTS (Model/CxxQueue.v).  harness/check.py merges all Extract/*.v into one run. *)
 From Coq Require Import Extraction ExtrOcamlBasic ExtrOcamlNativeString.
-From KV Require Import Model.CxxSyncIR Model.CxxQueue.
+From KV Require Import Model.CxxSyncIR Model.CxxQueue Model.CxxLifetime.
 
 Extraction Blacklist String List Bool.
 
 Separate Extraction
-  CxxQueue.run_trace CxxQueue.enabled_tids CxxQueue.init CxxQueue.step CxxQueue.all_done.
+  CxxQueue.run_trace CxxQueue.enabled_tids CxxQueue.init CxxQueue.step CxxQueue.all_done
+  CxxLifetime.lstep CxxLifetime.linit CxxLifetime.lenabled.
